@@ -177,3 +177,80 @@ def color_tables_consistent(index):
 UNITS = [GetRtfColorIndex(), GenerateColorTable()]
 LEMMAS = [LemmaUnit("c12_index_resolves", c12_lemma)]
 TABLES = [TableUnit("color_tables_consistent", color_tables_consistent)]
+
+
+# ---- collect_document_colors: every colour-bearing field of every component class is collected (coverage scan on the real AST) ------
+def collected_colour_fields(index):
+    """(component group -> set of attribute names) read by the real collect_document_colors: `body.<attr>` for bodies,
+    getattr(component, '<attr>') for the six text components (a shared loop), getattr(header, '<attr>') for column headers."""
+    import ast
+    fn = index.find_function("rtflite.services.color_service", "ColorService.collect_document_colors")
+    out = {"body": set(), "component": set(), "header": set()}
+    # names bound to a literal tuple / list of strings inside the function (e.g. border_color_attrs = ("border_color_left", ...))
+    consts = {}
+    for n in ast.walk(fn):
+        if isinstance(n, ast.Assign) and len(n.targets) == 1 and isinstance(n.targets[0], ast.Name) and isinstance(n.value, (ast.Tuple, ast.List)) \
+                and all(isinstance(e, ast.Constant) and isinstance(e.value, str) for e in n.value.elts):
+            consts[n.targets[0].id] = [e.value for e in n.value.elts]
+
+    def names_of(arg, loops):
+        """attribute names an expression can denote: a string constant, or a loop variable ranging over a literal sequence"""
+        if isinstance(arg, ast.Constant) and isinstance(arg.value, str):
+            return [arg.value]
+        if isinstance(arg, ast.Name) and arg.id in loops:
+            return loops[arg.id]
+        return []
+
+    def visit(node, loops):
+        if isinstance(node, ast.For) and isinstance(node.target, ast.Name):
+            it = node.iter
+            vals = None
+            if isinstance(it, (ast.Tuple, ast.List)) and all(isinstance(e, ast.Constant) and isinstance(e.value, str) for e in it.elts):
+                vals = [e.value for e in it.elts]
+            elif isinstance(it, ast.Name) and it.id in consts:
+                vals = consts[it.id]
+            inner = dict(loops)
+            if vals is not None:
+                inner[node.target.id] = vals
+            for ch in node.body + node.orelse:
+                visit(ch, inner)
+            return
+        if isinstance(node, ast.Call) and isinstance(node.func, ast.Name) and node.func.id == "extract_colors_from_attribute" and node.args:
+            a = node.args[0]
+            if isinstance(a, ast.Attribute) and isinstance(a.value, ast.Name) and a.value.id == "body":
+                out["body"].add(a.attr)
+            elif isinstance(a, ast.Call) and isinstance(a.func, ast.Name) and a.func.id == "getattr" and len(a.args) >= 2 and isinstance(a.args[0], ast.Name):
+                if a.args[0].id in out:
+                    out[a.args[0].id].update(names_of(a.args[1], loops))
+        for ch in ast.iter_child_nodes(node):
+            visit(ch, loops)
+    visit(fn, {})
+    # which objects the shared component loop ranges over
+    comps = set()
+    for n in ast.walk(fn):
+        if isinstance(n, ast.Assign) and len(n.targets) == 1 and isinstance(n.targets[0], ast.Name) and n.targets[0].id == "components" \
+                and isinstance(n.value, ast.List):
+            for e in n.value.elts:
+                if isinstance(e, ast.Attribute):
+                    comps.add(e.attr)
+    return out, comps
+
+
+def colour_collection_table(index):
+    """One obligation per (component class, colour-bearing field of the real pydantic model): the collector reads it."""
+    inp = index.real_module("rtflite.input")
+    got, comps = collected_colour_fields(index)
+    classes = {"RTFBody": ("body", None), "RTFColumnHeader": ("header", None), "RTFTitle": ("component", "rtf_title"),
+               "RTFSubline": ("component", "rtf_subline"), "RTFFootnote": ("component", "rtf_footnote"), "RTFSource": ("component", "rtf_source"),
+               "RTFPageHeader": ("component", "rtf_page_header"), "RTFPageFooter": ("component", "rtf_page_footer")}
+    for cname, (group, docfield) in classes.items():
+        cls = getattr(inp, cname)
+        if docfield is not None:
+            yield f"{cname}.is_visited_by_the_component_loop", docfield in comps, f"document.{docfield} in the `components` list: {sorted(comps)}"
+        for f in cls.model_fields:
+            if "color" in f:
+                yield f"{cname}.{f}.is_collected", f in got[group], f"{group} attributes collected: {sorted(got[group])}"
+
+
+from pyvc.units import TableUnit
+TABLES = list(globals().get("TABLES", [])) + [TableUnit("colour_collection_covers_every_colour_field", colour_collection_table)]
